@@ -33,7 +33,8 @@ ASSUMPTIONS = [
 OBLIGATIONS = {"dscore:m=1": 20, "dscore:m>=2": 50, "dscore:perfect": 20,
                "dscore:inverse": 20, "dscore:heavy-ties": 20,
                "dscore:identical-ens": 10, "dscore:wide-range": 20, "dscore:fine-lattice": 10, "eps:non-default": 20,
-               "dscore:constant-members": 5, "dscore:definition": 50, "ad:near-duplicates": 10, "ad:reject:several-outside": 10, "ensrank:ref": 50, "pit:random": 30,
+               "dscore:constant-members": 5, "dscore:definition": 50, "pit:long-series": 4,
+               "ad:extreme-values": 3, "ad:near-duplicates": 10, "ad:reject:several-outside": 10, "ensrank:ref": 50, "pit:random": 30,
                "pit:plain": 30, "pit:sudo": 30, "cvm": 50, "ad": 50, "ad:reject": 30,
                "alpha": 20, "n=1-sample": 5}
 
@@ -300,14 +301,23 @@ def run_pit_case(ctx, case):
     idx = np.where(~tied)[0]
     okm = True
     wit = None
-    for a in idx:
-        for b in idx:
-            if below[a] < below[b] and not (pits[a] < pits[b]):
-                okm = False
-                wit = (int(a), int(b))
-            if below[a] == below[b] and abs(pits[a] - pits[b]) > 1e-12:
-                okm = False
-                wit = (int(a), int(b))
+    # (vectorised: forecasts grouped by their count of members below the observation;
+    # equal counts -> equal PIT, larger count -> strictly larger PIT)
+    if len(idx):
+        o = idx[np.argsort(below[idx], kind="stable")]
+        bs, ps = below[o], pits[o]
+        same = bs[1:] == bs[:-1]
+        bad_eq = np.where(same & (np.abs(ps[1:] - ps[:-1]) > 1e-12))[0]
+        # between consecutive groups: max of the lower group < min of the upper group
+        starts = np.concatenate([[0], np.where(~same)[0] + 1])
+        gmin = np.minimum.reduceat(ps, starts)
+        gmax = np.maximum.reduceat(ps, starts)
+        bad_lt = np.where(~(gmax[:-1] < gmin[1:]))[0]
+        if len(bad_eq):
+            okm, wit = False, (int(o[bad_eq[0]]), int(o[bad_eq[0] + 1]))
+        elif len(bad_lt):
+            okm = False
+            wit = (int(o[starts[bad_lt[0]]]), int(o[starts[bad_lt[0] + 1]]))
     ctx.check("pit.strictly-increasing-in-count-below", okm, "pit|monotone", case,
               lambda: {"pair": wit, "below": below.tolist(), "pits": pits.tolist()})
     want = (obs <= censor) & ((ens <= censor).sum(axis=1) > 0)
@@ -461,6 +471,19 @@ def run(ctx):
                            if it % 5 else [0.0, 0.5][it % 2],
                            "censor": censor, "npseed": int(rng.integers(0, 2 ** 31)),
                            "pitkind": ["rank", "weak", "strict", "mean"][(it // 2) % 4]})
+        # long series: lengths at which an implementation may start working in blocks
+        if it % 30 == 7:
+            from hyverif.core import size_edges
+            ed = [v for v in size_edges(1000, 10001 if ctx.tier == "quick" else 66000)]
+            nl = ed[((it // 30) * ctx.nshards + ctx.shard) % len(ed)]
+            ctx.tag("pit:long-series")
+            el = rng.choice(lat, size=(nl, 5))
+            ol = rng.choice(np.concatenate([lat, lat + 0.25]), size=nl)
+            for rnd_ in (False, True):
+                run_pit_case(ctx, {"kind": "pit", "obs": ol, "ens": el, "random": rnd_,
+                                   "cst": 0.3, "censor": -10.0,
+                                   "npseed": int(rng.integers(0, 2 ** 31)),
+                                   "pitkind": "rank"})
         # uniformity statistics
         nn = int(rng.integers(1, 12)) if it % 3 == 0 else int(rng.integers(1, 501))
         kind = it % 4
@@ -486,6 +509,13 @@ def run(ctx):
                 u[a], u[b] = 7e-9, 2e-9
                 u[c], u[d] = 1 - 6e-9, 1 - 1e-9
             u = np.clip(u, 1e-12, 1 - 1e-12)
+            if nn >= 3 and it % 10 == 1:
+                # inside (0, 1) but closer to an end than machine epsilon
+                ctx.tag("ad:extreme-values")
+                a, b, c = rng.choice(nn, size=3, replace=False)
+                u[a] = [1e-18, 1e-300, 5e-324, 3e-17, 1e-310][it // 10 % 5]
+                u[b] = np.nextafter(1.0, 0.0)
+                u[c] = 1 - 2.0 ** -52
         run_unif_case(ctx, {"kind": "unif", "u": u, "perm": rng.permutation(nn),
                             "near": near})
         # rejection
